@@ -12,20 +12,21 @@ import (
 )
 
 // recLocker wraps the real locker and records the calls made on it.
+// (the real service is embedded so that methods this wrapper does not know pass through untraced)
 type recLocker struct {
-	inner locker.Service
-	w     *world
+	locker.Service
+	w *world
 }
 
-func (r *recLocker) PreLock()  { r.w.tok("P"); r.inner.PreLock() }
-func (r *recLocker) PostLock() { r.inner.PostLock(); r.w.tok("Q") }
+func (r *recLocker) PreLock()  { r.w.tok("P"); r.Service.PreLock() }
+func (r *recLocker) PostLock() { r.Service.PostLock(); r.w.tok("Q") }
 func (r *recLocker) Lock(k [48]byte) {
-	r.inner.Lock(k)
+	r.Service.Lock(k)
 	r.w.tok(fmt.Sprintf("L:%x", k[:4]))
 }
 func (r *recLocker) Unlock(k [48]byte) {
 	r.w.tok(fmt.Sprintf("U:%x", k[:4]))
-	r.inner.Unlock(k)
+	r.Service.Unlock(k)
 }
 
 var (
@@ -41,7 +42,7 @@ func (w *world) tok(s string) {
 // enableTrace wraps the locker (must be called before begin) and installs a base hook handler that
 // records store accesses.
 func (w *world) enableTrace() {
-	w.lockWrap = func(l locker.Service) locker.Service { return &recLocker{inner: l, w: w} }
+	w.lockWrap = func(l locker.Service) locker.Service { return &recLocker{Service: l, w: w} }
 	baseHandler = func(name string, _ []byte) error {
 		switch name {
 		case "fetch.enter":
